@@ -26,6 +26,31 @@ type monValset struct {
 	lastPowerAt map[string]int64 // operator -> last power at PostBegin
 	phaseAt     map[string]phase
 	suspects    []suspect
+	// powers (staking last power) of the provider's recorded consensus set and the active-set size parameter at PostBegin:
+	// what a Top-N change executed later in this block (a governance proposal in gov's EndBlocker, which runs before the
+	// provider's) has to compute the new threshold from
+	activePowersAtBegin []int64
+	maxActiveAtBegin    int64
+}
+
+// topNThreshold is the statement's m: the smallest power such that validators with at least that power hold >= N percent.
+func topNThreshold(powers []int64, n uint32) (int64, bool) {
+	ps := append([]int64(nil), powers...)
+	sort.Slice(ps, func(i, j int) bool { return ps[i] > ps[j] })
+	var total, cum int64
+	for _, p := range ps {
+		total += p
+	}
+	for i, p := range ps {
+		cum += p
+		if i+1 < len(ps) && ps[i+1] == p {
+			continue // take the whole tie group
+		}
+		if cum*100 >= int64(n)*total {
+			return p, true
+		}
+	}
+	return 0, false
 }
 
 type suspect struct {
@@ -62,8 +87,19 @@ func (m *monValset) PostBegin(ctx sdk.Context) {
 	m.topnAtBegin = map[string]topnSnap{}
 	m.phaseAt = map[string]phase{}
 	m.lastPowerAt = map[string]int64{}
+	recAtBegin := map[string]bool{}
+	if rec, err := pk.GetLastProviderConsensusValSet(ctx); err == nil {
+		for _, r := range rec {
+			recAtBegin[consHex(r.ProviderConsAddr)] = true
+		}
+	}
+	m.activePowersAtBegin = nil
+	m.maxActiveAtBegin = pk.GetMaxProviderConsensusValidators(ctx)
 	for _, sv := range w.StakingSnapshot(ctx) {
 		m.lastPowerAt[sv.Oper] = sv.LastPower
+		if recAtBegin[consHex(sv.ConsAddr)] {
+			m.activePowersAtBegin = append(m.activePowersAtBegin, sv.LastPower)
+		}
 	}
 	for _, id := range pk.GetAllConsumerIds(ctx) {
 		ph := pk.GetConsumerPhase(ctx, id)
@@ -132,9 +168,59 @@ func (m *monValset) PostEnd(ctx sdk.Context) {
 		ph := pk.GetConsumerPhase(ctx, id)
 		if epoch && ph == phLaunch && m.prevPhase[id] == phLaunch {
 			m.checkConsumerSet(ctx, id, false)
+		} else if ph != phDeleted {
+			m.checkTopNChange(ctx, id)
 		}
 		m.prevPhase[id] = ph
 	}
+}
+
+// checkTopNChange: when a consumer's Top-N value changed in this block (and this block's EndBlock did not recompute the set),
+// the stored threshold must already be the one for the NEW value - computed over the active set the provider had recorded
+// when the block began - or be gone when the consumer stopped being a Top-N consumer. Opt-outs are judged against it until
+// the next epoch.
+func (m *monValset) checkTopNChange(ctx sdk.Context, id string) {
+	w := m.w
+	pk := w.P.PApp.ProviderKeeper
+	before, ok := m.topnAtBegin[id]
+	if !ok {
+		return
+	}
+	ps, err := pk.GetConsumerPowerShapingParameters(ctx, id)
+	if err != nil || ps.Top_N == before.TopN {
+		return
+	}
+	if pk.GetMaxProviderConsensusValidators(ctx) != m.maxActiveAtBegin {
+		w.Event("C03", "topn-changes-not-judged-because-the-active-set-size-changed-in-the-same-block")
+		return
+	}
+	mStored, hasM := pk.GetMinimumPowerInTopN(ctx, id)
+	w.Eval("C03")
+	w.Event("C03", "topn-changes-judged")
+	w.Case("C03", fmt.Sprintf("topn-change %s->%s", bucketN(before.TopN), bucketN(ps.Top_N)))
+	if ps.Top_N == 0 {
+		if hasM {
+			w.Violation("C03", "threshold-kept-after-topn-removed", map[string]any{"consumer": id, "stored": mStored, "old_N": before.TopN})
+		}
+		return
+	}
+	mStar, ok := topNThreshold(m.activePowersAtBegin, ps.Top_N)
+	if ok && (!hasM || mStored != mStar) {
+		w.Violation("C03", "stored-threshold-differs:topn-change", map[string]any{"consumer": id, "old_N": before.TopN, "N": ps.Top_N, "stored": mStored, "has": hasM,
+			"expected": mStar, "active_powers": m.activePowersAtBegin})
+	}
+}
+
+func bucketN(n uint32) string {
+	switch {
+	case n == 0:
+		return "0"
+	case n < 67:
+		return "50-66"
+	case n < 100:
+		return "67-99"
+	}
+	return "100"
 }
 
 // AfterBlock folds opt-in/opt-out tx results into the shadow and judges opt-out outcomes (C03).
@@ -269,20 +355,8 @@ func (m *monValset) checkConsumerSet(ctx sdk.Context, id string, atLaunch bool) 
 				total += sv.LastPower
 			}
 		}
-		sort.Slice(powers, func(i, j int) bool { return powers[i] > powers[j] })
-		mStar, ok := int64(0), false
-		var cum int64
-		for i, p := range powers {
-			cum += p
-			// take the whole tie group
-			if i+1 < len(powers) && powers[i+1] == p {
-				continue
-			}
-			if cum*100 >= int64(ps.Top_N)*total {
-				mStar, ok = p, true
-				break
-			}
-		}
+		mStar, ok := topNThreshold(powers, ps.Top_N)
+		_ = total
 		w.Eval("C03")
 		w.Event("C03", "threshold-evaluations")
 		ties := 0
